@@ -1,6 +1,7 @@
 (* compiler core on the model side: AST reader, structural term hash, (later) execution *)
 open Model
 open Sexp
+type string = Stdlib.String.t
 open Conv
 
 (* ---- name interning: identifiers / witness names <-> N *)
@@ -144,3 +145,53 @@ let handle (line : string) : string =
     res_str (fun t -> let x = term_hash t in Printf.sprintf "(ok %s %d)" (hash_str x) x.n)
       (compile_program (int_of dbg <> 0) a e)
   | _ -> "ERR bad core case"
+
+(* ---- execution on the model: source semantics and evaluation of the compiled term *)
+let ocaml_string (s : Model.string) : string =
+  let b = Buffer.create 16 in
+  let rec go = function
+    | EmptyString -> ()
+    | String (Ascii (b0, b1, b2, b3, b4, b5, b6, b7), r) ->
+      let bit x i = if x then 1 lsl i else 0 in
+      Buffer.add_char b (Char.chr (bit b0 0 + bit b1 1 + bit b2 2 + bit b3 3 + bit b4 4 + bit b5 5 + bit b6 6 + bit b7 7));
+      go r in
+  go s; Buffer.contents b
+
+let jets : (sval -> sval option option) option array Lazy.t = lazy (
+  let rows = Model.jet_rows in
+  let n = List.length rows in
+  let a = Array.make n None in
+  List.iter (fun (((((idx, name), _), _), _), _) -> a.(int_of_n idx) <- Model.jet_by_name name) rows;
+  a)
+
+exception Unknown_jet of int
+
+let jet_oracle (j : n) (a : sval) : sval option =
+  let i = int_of_n j in
+  match (Lazy.force jets).(i) with
+  | Some f -> (match f a with Some r -> r | None -> None)
+  | None -> raise (Unknown_jet i)
+
+let out_str = function Val VU -> "ok" | Val _ -> "value" | Failed -> "failed" | Stuck -> "stuck"
+
+let handle (line : string) : string =
+  let s = parse line in
+  match tag s with
+  | "mrun", [ ast; args; wits; dbg ] ->
+    let e = expr_of ast in
+    let a = lookup_fn (bindings_of args) in
+    let w0 = lookup_fn (bindings_of wits) in
+    let w n = match w0 n with Some v -> Some (structural v) | None -> None in
+    (try
+       let s = sem_program jet_oracle w a e in
+       let ev = match compile_program (int_of dbg <> 0) a e with
+         | Ok t -> out_str (eval jet_oracle w t VU)
+         | Err -> "cerr" | Panic -> "panic" in
+       Printf.sprintf "(sem %s) (eval %s)" (out_str s) ev
+     with Unknown_jet i -> Printf.sprintf "(unknown-jet %d)" i)
+  | "knownjets", [] ->
+    let a = Lazy.force jets in
+    let l = ref [] in
+    Array.iteri (fun i x -> if x <> None then l := string_of_int i :: !l) a;
+    "(" ^ String.concat " " (List.rev !l) ^ ")"
+  | _ -> handle line
